@@ -55,6 +55,21 @@ def run_case(arg):
     return out
 
 
+def single_faults(ops, sticky=False):
+    """level-1 fault list for a recorded trace [(seq, op, mutating)]: every op x every errno the call can return"""
+    out = []
+    for seq, op, mut in ops:
+        for e in ERRNOS.get(op, []):
+            out.append({'at': seq, 'errno': e, 'op': op})
+            if sticky and mut and e != 'EEXIST':
+                out.append({'at': seq, 'errno': e, 'op': op, 'sticky': True})
+    return out
+
+
+def ops_of(trace):
+    return [[t[0], t[1], 1 if cell.is_mutating(t) else 0] for t in trace if relevant(t)]
+
+
 def _cases(mod, scn, base_faults, ops, after_seq, level, tier, budget, sticky=False):
     out = []
     for seq, op, mut in ops:
